@@ -225,6 +225,11 @@ pub struct RunOutput {
 }
 
 fn dispatch(ctx: &mut Ctx) -> Step {
+    if ctx.env.lean {
+        // the Miri leg: repository code only, no reference models in the loop
+        ctx.mode = Prop::C07;
+        return game::run(ctx);
+    }
     if ctx.claim == Prop::C07 {
         // C07 borrows every workload
         ctx.mode = *ctx.tape.pick(&[
